@@ -101,6 +101,14 @@ def py_floordiv(a, b):
 
 
 def binop(eng, op, a, b):
+    if isinstance(a, PArr) or isinstance(b, PArr):
+        # element-wise numpy arithmetic at the arbitrary index
+        diag = a.diag if isinstance(a, PArr) else b.diag
+        x, y = _real(eng.num(a)), _real(eng.num(b))
+        if op == 'Pow':
+            return PArr(eng.uf('pow_', [TReal, TReal], TReal)(x, y), diag)
+        r = binop(eng, op, SV(TReal, x), SV(TReal, y))
+        return PArr(_real(eng.num(r)), diag)
     if isinstance(a, (str, tuple)) and isinstance(b, type(a)) and op == 'Add':
         return a + b
     if isinstance(a, str) and op == 'Mod':
@@ -261,6 +269,11 @@ def seq_repeat(eng, a, n):
     return Box(ty, r)
 
 
+def inplace_parr(eng, op, arr, rhs):
+    r = binop(eng, op, arr, rhs)
+    arr.e = r.e
+
+
 def inplace(eng, op, box, rhs):
     """augmented assignment on a mutable container; returns True if handled in place."""
     if box.kind == 'list' and op == 'Add':
@@ -274,6 +287,9 @@ def inplace(eng, op, box, rhs):
 
 
 def compare(eng, op, a, b):
+    if (isinstance(a, PArr) or isinstance(b, PArr)) and op in ('Lt', 'LtE', 'Gt', 'GtE'):
+        x, y = _real(eng.num(a)), _real(eng.num(b))
+        return PArr({'Lt': x < y, 'LtE': x <= y, 'Gt': x > y, 'GtE': x >= y}[op])      # a mask
     if op == 'Eq':
         return eng.eq(a, b)
     if op == 'NotEq':
@@ -695,6 +711,9 @@ def _finish_fwd(v):
 
 
 def setitem(eng, c, k, v):
+    if isinstance(c, PArr) and isinstance(k, PArr):
+        c.e = z3.If(k.e, _real(eng.num(v)), c.e)          # arr[mask] = v
+        return
     if isinstance(c, Obj):
         k_ = c.__dict__.get('klass')
         if k_ is not None and k_.lookup('__setitem__') is not None:
@@ -1912,7 +1931,16 @@ def install(eng):
         if isinstance(v, (int, float)):
             return (v > 0) - (v < 0)
         return e.numval(z3.If(v > 0, 1, z3.If(v < 0, -1, 0)))
-    EXTERNAL_MODULES['numpy'] = ModuleV('numpy', dict(sign=Builtin(np_sign, 'numpy.sign')))
+    def np_exp(e, x):
+        f = e.uf('exp_', [TReal], TReal)
+        if isinstance(x, PArr):
+            return PArr(f(x.e), x.diag)
+        return wrap(TReal, f(_real(e.num(x))))
+
+    def np_fill_diagonal(e, arr, v):
+        arr.e = z3.If(arr.diag, _real(e.num(v)), arr.e)
+    EXTERNAL_MODULES['numpy'] = ModuleV('numpy', dict(sign=Builtin(np_sign, 'numpy.sign'), exp=Builtin(np_exp, 'numpy.exp'),
+                                                      fill_diagonal=Builtin(np_fill_diagonal, 'numpy.fill_diagonal')))
     def namedtuple(e, name, fields):
         names = fields.split() if isinstance(fields, str) else list(e.concrete_list(fields))
 
